@@ -191,14 +191,12 @@ macro_rules! mod_impl {
                 out
             }
 
-            const BITS_MINUS_1: ExpType = (Self::BITS - 1) as ExpType;
-
             #[doc = doc::rotate_left!(U 256, "u")]
             #[must_use = doc::must_use_op!()]
             #[inline]
             pub const fn rotate_left(self, n: ExpType) -> Self {
                 unsafe {
-                    self.unchecked_rotate_left(n & Self::BITS_MINUS_1)
+                    self.unchecked_rotate_left(n % Self::BITS)
                 }
             }
 
@@ -206,7 +204,7 @@ macro_rules! mod_impl {
             #[must_use = doc::must_use_op!()]
             #[inline]
             pub const fn rotate_right(self, n: ExpType) -> Self {
-                let n = n & Self::BITS_MINUS_1;
+                let n = n % Self::BITS;
                 unsafe {
                     self.unchecked_rotate_left(Self::BITS as ExpType - n)
                 }
